@@ -46,6 +46,7 @@ import (
 	"encoding/json"
 	"errors"
 	"fmt"
+	"runtime"
 	"strconv"
 	"strings"
 	"sync"
@@ -68,6 +69,26 @@ type c06Row struct {
 }
 
 var errC06DB = errors.New("verif: database down")
+
+// the query function PANICS (`db=2`: with an error value, `db=3`: with a non-error value): the panic is the user's
+// own and travels up to the caller of the entry point (printed `panicked`); what the property demands is that
+// nothing is cached by that operation and that the key stays readable afterwards (the barrier is released).
+var errC06Panicked = errors.New("verif: the query function panicked")
+
+const c06PanicText = "verif: query function panicked"
+
+func c06Guard(f func() error) (err error) {
+	defer func() {
+		if p := recover(); p != nil {
+			if p == any(errC06DB) || p == any(c06PanicText) {
+				err = errC06Panicked
+				return
+			}
+			panic(p)
+		}
+	}()
+	return f()
+}
 
 func c06Val(tok string) (any, string) {
 	// returns the Go value to hand to SetCache and the raw string for `raw`
@@ -93,12 +114,41 @@ func c06Err(err error) string {
 		return "ok"
 	case errors.Is(err, sql.ErrNoRows):
 		return "notfound"
+	case errors.Is(err, errC06Panicked):
+		return "panicked"
 	case errors.Is(err, errC06DB):
 		return "dberr"
 	case strings.Contains(err.Error(), cache.VerifC06Injected):
 		return "cacheerr"
 	}
 	return "err:" + strings.ReplaceAll(err.Error(), " ", "_")
+}
+
+// c06Panic canonicalises a recovered panic value into one token.
+func c06Panic(p any) string {
+	b := []byte(fmt.Sprint(p))
+	for i, ch := range b {
+		if !(ch >= 'a' && ch <= 'z' || ch >= 'A' && ch <= 'Z' || ch >= '0' && ch <= '9') {
+			b[i] = '_'
+		}
+	}
+	if len(b) > 120 {
+		b = b[:120]
+	}
+	return "PANIC:" + string(b)
+}
+
+// c06Join waits for the reader goroutines of a concurrent read; false = they did not all return (a reader parked
+// for good on a barrier that is never released is a failing input too, not a reason to hang the run).
+func c06Join(wg *sync.WaitGroup) bool {
+	done := make(chan struct{})
+	go func() { wg.Wait(); close(done) }()
+	select {
+	case <-done:
+		return true
+	case <-time.After(60 * time.Second):
+		return false
+	}
 }
 
 func c06Opt(op []string, k, dflt string) string {
@@ -169,6 +219,16 @@ func TestVerifC06(t *testing.T) {
 			timex.VerifAdvance(20 * time.Second)
 			env.Jitter.SetJ(verifh.Atoi(c06Opt(op, "j", "500")))
 			dbfail := c06Opt(op, "db", "0") == "1"
+			pan := func() {
+				switch c06Opt(op, "db", "0") {
+				case "2":
+					panic(errC06DB)
+				case "3":
+					panic(c06PanicText)
+				}
+			}
+			// `nc=1`: the operation goes through the context-free wrapper of the entry point (QueryRow, Exec, DelCache, …)
+			nc := c06Opt(op, "nc", "0") == "1"
 			// `w=1`: the query reports an absent row with a WRAPPED not-found error (errors.Is semantics)
 			notFound := error(ErrNotFound)
 			if c06Opt(op, "w", "0") == "1" {
@@ -179,7 +239,7 @@ func TestVerifC06(t *testing.T) {
 			res := ""
 			how := "order"
 			var cc CachedConn
-			if op[0] != "ctake" {
+			if op[0] != "ctake" && op[0] != "cmix" {
 				cc = ccs[cache.VerifC06InstOf(op, len(ccs))]
 			}
 			switch op[0] {
@@ -189,8 +249,9 @@ func TestVerifC06(t *testing.T) {
 			case "take":
 				pk := verifh.Atoi(op[1][1:])
 				var v c06Row
-				err := cc.QueryRowCtx(ctx, &v, key(op[1]), func(ctx context.Context, conn sqlx.SqlConn, v any) error {
+				q := func(ctx context.Context, conn sqlx.SqlConn, v any) error {
 					queries++
+					pan()
 					if dbfail {
 						return errC06DB
 					}
@@ -200,7 +261,15 @@ func TestVerifC06(t *testing.T) {
 					}
 					*v.(*c06Row) = r
 					return nil
-				})
+				}
+				var err error
+				if nc {
+					err = c06Guard(func() error {
+						return cc.QueryRow(&v, key(op[1]), func(conn sqlx.SqlConn, v any) error { return q(ctx, conn, v) })
+					})
+				} else {
+					err = c06Guard(func() error { return cc.QueryRowCtx(ctx, &v, key(op[1]), q) })
+				}
 				res = isNF(c06Err(err), err)
 				if err == nil {
 					res = fmt.Sprintf("val:r:%d:%d:%d", v.Id, v.V, v.A)
@@ -235,6 +304,12 @@ func TestVerifC06(t *testing.T) {
 					wg.Add(1)
 					go func(i int) {
 						defer wg.Done()
+						// a panic of the real code in a reader goroutine is an observation, not the end of the run
+						defer func() {
+							if p := recover(); p != nil {
+								results[i] = c06Panic(p)
+							}
+						}()
 						rc := ccs[via[i%len(via)]]
 						cls := classes[via[i%len(via)]]
 						mu.Lock()
@@ -280,10 +355,18 @@ func TestVerifC06(t *testing.T) {
 						results[i] = r
 					}(i)
 				}
-				wg.Wait()
+				first := results[0]
+				if !c06Join(&wg) {
+					first = "PANIC:readers-did-not-return"
+				} else {
+					first = results[0]
+				}
 				distinct := map[string]bool{}
 				for _, r := range results {
 					distinct[r] = true
+					if strings.HasPrefix(r, "PANIC") && !strings.HasPrefix(first, "PANIC") {
+						first = r
+					}
 				}
 				// database queries: one per flight. One barrier class, no fault: exactly one (printed); several
 				// classes: each class loads at most once (1..#classes, `ok`); database fault: every flight
@@ -295,13 +378,172 @@ func TestVerifC06(t *testing.T) {
 					qs = "ok"
 				}
 				cleaner.Sync()
-				return fmt.Sprintf("%s q=%s cmds=- inflight=%d distinct=%d | %s", results[0], qs, maxInflight, len(distinct), dump())
+				return fmt.Sprintf("%s q=%s cmds=- inflight=%d distinct=%d | %s", first, qs, maxInflight, len(distinct), dump())
+			case "cmix":
+				// concurrent readers of SEVERAL keys through the same barrier(s), optionally each going on to a second
+				// key right after its first read returned ("user, then order"): `cmix p0+p1 n=6 chain=1 gmp=1 i=0+1`.
+				// Reader r reads key K[r mod |K|] through instance via[r mod |via|], then (chain=1) key K[(r+1) mod |K|].
+				// The first query of every key is held open until every reader has been launched. `gmp=1` runs the op
+				// with GOMAXPROCS(1) (one P: a woken waiter runs only after the goroutine that woke it yields).
+				// Printed: every read with its result, per key what its database queries returned and how many ran,
+				// the largest number of queries in flight for one key under one promised barrier.
+				var toks, rkeys []string
+				var pks []int
+				for _, t := range strings.Split(op[1], "+") {
+					toks = append(toks, t)
+					rkeys = append(rkeys, key(t)) // resolved here: the map behind key() is not for concurrent use
+					pks = append(pks, verifh.Atoi(t[1:]))
+				}
+				n := verifh.Atoi(c06Opt(op, "n", "4"))
+				chain := c06Opt(op, "chain", "0") == "1"
+				var via []int
+				for _, t := range strings.Split(c06Opt(op, "i", "0"), "+") {
+					i := verifh.Atoi(t)
+					if i < 0 || i >= len(ccs) {
+						panic("bad i= in op: " + strings.Join(op, " "))
+					}
+					via = append(via, i)
+				}
+				ncls := map[string]bool{}
+				for _, i := range via {
+					ncls[classes[i]] = true
+				}
+				if c06Opt(op, "gmp", "0") == "1" {
+					defer runtime.GOMAXPROCS(runtime.GOMAXPROCS(1))
+				}
+				var mu sync.Mutex
+				inflight, maxInflight := map[string]int{}, 0
+				started := 0
+				count := map[string]int{}
+				loaded := map[string]map[string]bool{}
+				per := 1
+				if chain {
+					per = 2
+				}
+				reads := make([]string, n*per)
+				for i := range reads {
+					reads[i] = "-"
+				}
+				read := func(slot int, rc CachedConn, cls string, ki int) {
+					tok, pk := toks[ki], pks[ki]
+					reads[slot] = fmt.Sprintf("%d/%s/", slot/per, tok)
+					var v c06Row
+					err := rc.QueryRowCtx(ctx, &v, rkeys[ki], func(ctx context.Context, conn sqlx.SqlConn, v any) error {
+						mu.Lock()
+						inflight[cls+"/"+tok]++
+						count[tok]++
+						if inflight[cls+"/"+tok] > maxInflight {
+							maxInflight = inflight[cls+"/"+tok]
+						}
+						mu.Unlock()
+						for k := 0; k < 2000; k++ {
+							mu.Lock()
+							all := started == n
+							mu.Unlock()
+							if all {
+								break
+							}
+							time.Sleep(50 * time.Microsecond)
+						}
+						time.Sleep(300 * time.Microsecond)
+						res, ret := "", error(nil)
+						if r, ok := rows[pk]; dbfail {
+							res, ret = "dberr", errC06DB
+						} else if !ok {
+							res, ret = "notfound", notFound
+						} else {
+							*v.(*c06Row) = r
+							res = fmt.Sprintf("val:r:%d:%d:%d", r.Id, r.V, r.A)
+						}
+						mu.Lock()
+						inflight[cls+"/"+tok]--
+						if loaded[tok] == nil {
+							loaded[tok] = map[string]bool{}
+						}
+						loaded[tok][res] = true
+						mu.Unlock()
+						return ret
+					})
+					r := isNF(c06Err(err), err)
+					if err == nil {
+						r = fmt.Sprintf("val:r:%d:%d:%d", v.Id, v.V, v.A)
+					}
+					reads[slot] += r
+				}
+				var wg sync.WaitGroup
+				for i := 0; i < n; i++ {
+					wg.Add(1)
+					go func(i int) {
+						defer wg.Done()
+						slot := i * per
+						defer func() {
+							if p := recover(); p != nil {
+								reads[slot] = fmt.Sprintf("%d/%s/%s", i, toks[(i+slot%per)%len(toks)], c06Panic(p))
+							}
+						}()
+						rc, cls := ccs[via[i%len(via)]], classes[via[i%len(via)]]
+						mu.Lock()
+						started++
+						mu.Unlock()
+						read(slot, rc, cls, i%len(toks))
+						if chain {
+							slot++
+							read(slot, rc, cls, (i+1)%len(toks))
+						}
+					}(i)
+				}
+				res = "ok"
+				if !c06Join(&wg) {
+					res = "PANIC:readers-did-not-return"
+				}
+				mu.Lock()
+				total := 0
+				var loads []string
+				seen := map[string]bool{}
+				for _, tok := range toks {
+					if seen[tok] || count[tok] == 0 {
+						continue
+					}
+					seen[tok] = true
+					total += count[tok]
+					// queries of one key: exactly one under one barrier class without a fault; one per class with
+					// several classes; with a database fault every flight re-queries (both printed as `ok`)
+					nreads := 0
+					for _, r := range reads {
+						if strings.Contains(r, "/"+tok+"/") {
+							nreads++
+						}
+					}
+					cs := strconv.Itoa(count[tok])
+					if dbfail && count[tok] <= nreads {
+						cs = "ok"
+					} else if !dbfail && len(ncls) > 1 && count[tok] <= len(ncls) {
+						cs = "ok"
+					}
+					var ls []string
+					for l := range loaded[tok] {
+						ls = append(ls, l)
+					}
+					loads = append(loads, tok+"/"+cs+"/"+verifh.SortedJoin(ls))
+				}
+				qs := strconv.Itoa(total)
+				if (dbfail || len(ncls) > 1) && total >= 1 {
+					qs = "ok"
+				}
+				ld := "-"
+				if len(loads) > 0 {
+					ld = strings.ReplaceAll(strings.Join(loads, ","), " ", "|")
+				}
+				out := fmt.Sprintf("%s q=%s cmds=- inflight=%d reads=%s loads=%s", res, qs, maxInflight, strings.Join(reads, ","), ld)
+				mu.Unlock()
+				cleaner.Sync()
+				return out + " | " + dump()
 			case "qindex":
 				a := verifh.Atoi(op[1][1:])
 				var v c06Row
-				err := cc.QueryRowIndexCtx(ctx, &v, key(op[1]), keyer,
-					func(ctx context.Context, conn sqlx.SqlConn, v any) (any, error) {
+				iq := func(ctx context.Context, conn sqlx.SqlConn, v any) (any, error) {
 						queries++
+						pan()
 						if dbfail {
 							return nil, errC06DB
 						}
@@ -315,9 +557,10 @@ func TestVerifC06(t *testing.T) {
 						}
 						*v.(*c06Row) = r
 						return pk, nil
-					},
-					func(ctx context.Context, conn sqlx.SqlConn, v, primary any) error {
+					}
+				pq := func(ctx context.Context, conn sqlx.SqlConn, v, primary any) error {
 						queries++
+						pan()
 						if dbfail {
 							return errC06DB
 						}
@@ -342,7 +585,17 @@ func TestVerifC06(t *testing.T) {
 						}
 						*v.(*c06Row) = r
 						return nil
+					}
+				var err error
+				if nc {
+					err = c06Guard(func() error {
+						return cc.QueryRowIndex(&v, key(op[1]), keyer,
+							func(conn sqlx.SqlConn, v any) (any, error) { return iq(ctx, conn, v) },
+							func(conn sqlx.SqlConn, v, primary any) error { return pq(ctx, conn, v, primary) })
 					})
+				} else {
+					err = c06Guard(func() error { return cc.QueryRowIndexCtx(ctx, &v, key(op[1]), keyer, iq, pq) })
+				}
 				res = isNF(c06Err(err), err)
 				if err == nil {
 					res = fmt.Sprintf("val:r:%d:%d:%d", v.Id, v.V, v.A)
@@ -350,14 +603,24 @@ func TestVerifC06(t *testing.T) {
 			case "get":
 				if op[1][0] == 'p' {
 					var v c06Row
-					err := cc.GetCacheCtx(ctx, key(op[1]), &v)
+					var err error
+					if nc {
+						err = cc.GetCache(key(op[1]), &v)
+					} else {
+						err = cc.GetCacheCtx(ctx, key(op[1]), &v)
+					}
 					res = isNF(c06Err(err), err)
 					if err == nil {
 						res = fmt.Sprintf("val:r:%d:%d:%d", v.Id, v.V, v.A)
 					}
 				} else {
 					var v any
-					err := cc.GetCacheCtx(ctx, key(op[1]), &v)
+					var err error
+					if nc {
+						err = cc.GetCache(key(op[1]), &v)
+					} else {
+						err = cc.GetCacheCtx(ctx, key(op[1]), &v)
+					}
 					res = isNF(c06Err(err), err)
 					if err == nil {
 						f, ok := v.(json.Number)
@@ -373,7 +636,7 @@ func TestVerifC06(t *testing.T) {
 				env.Begin(cache.VerifC06ModeNode, c06Opt(op, "c", ""))
 				how = "node"
 				w := strings.Split(op[2], ":")
-				_, err := cc.ExecCtx(ctx, func(ctx context.Context, conn sqlx.SqlConn) (sql.Result, error) {
+				ex := func(ctx context.Context, conn sqlx.SqlConn) (sql.Result, error) {
 					queries++
 					if dbfail {
 						return nil, errC06DB
@@ -396,19 +659,37 @@ func TestVerifC06(t *testing.T) {
 						panic("bad write " + op[2])
 					}
 					return nil, nil
-				}, keys...)
+				}
+				var err error
+				if nc {
+					_, err = cc.Exec(func(conn sqlx.SqlConn) (sql.Result, error) { return ex(ctx, conn) }, keys...)
+				} else {
+					_, err = cc.ExecCtx(ctx, ex, keys...)
+				}
 				res = c06Err(err)
 			case "del":
 				keys := keysOf(op[1])
 				env.Begin(cache.VerifC06ModeNode, c06Opt(op, "c", ""))
 				how = "node"
-				res = c06Err(cc.DelCacheCtx(ctx, keys...))
+				if nc {
+					res = c06Err(cc.DelCache(keys...))
+				} else {
+					res = c06Err(cc.DelCacheCtx(ctx, keys...))
+				}
 			case "set":
 				v, _ := c06Val(op[2])
-				res = c06Err(cc.SetCacheCtx(ctx, key(op[1]), v))
+				if nc {
+					res = c06Err(cc.SetCache(key(op[1]), v))
+				} else {
+					res = c06Err(cc.SetCacheCtx(ctx, key(op[1]), v))
+				}
 			case "setx":
 				v, _ := c06Val(op[2])
-				res = c06Err(cc.SetCacheWithExpireCtx(ctx, key(op[1]), v, time.Duration(verifh.Atoi64(op[3]))*time.Millisecond))
+				if nc {
+					res = c06Err(cc.SetCacheWithExpire(key(op[1]), v, time.Duration(verifh.Atoi64(op[3]))*time.Millisecond))
+				} else {
+					res = c06Err(cc.SetCacheWithExpireCtx(ctx, key(op[1]), v, time.Duration(verifh.Atoi64(op[3]))*time.Millisecond))
+				}
 			case "raw":
 				_, raw := c06Val(op[2])
 				env.Raw(op[1], raw, time.Duration(verifh.Atoi64(op[3]))*time.Millisecond)
@@ -535,6 +816,17 @@ func c06J(r *verifh.Rng) string {
 	}
 }
 
+// c06DBFaultP: c06DBFault plus the panicking query function (sequential reads only).
+func c06DBFaultP(r *verifh.Rng) string {
+	switch r.Intn(24) {
+	case 0:
+		return " db=2"
+	case 1:
+		return " db=3"
+	}
+	return c06DBFault(r)
+}
+
 func c06DBFault(r *verifh.Rng) string {
 	switch r.Intn(16) {
 	case 0, 1:
@@ -600,6 +892,10 @@ var c06NXScenario = verifh.Section{Cfg: "exp=20000 nf=3000 stale=report nodes=1 
 	"raw x1 j:4 50000", "qindex x1 c=01", "qindex x1 w=1", "qindex x1",
 	"exec - put:2:5:2", "raw p2 j:1 100000", "take p2 c=01 j=500", "take p2",
 	"raw x2 j:2 100000", "qindex x2 c=01", "qindex x2", "exec p2,x2 rm:2", "set p2 r:2:5:2", "take p2", "del p2", "take p2 w=1", "qindex x2 w=1",
+	// the query function panics (error value / non-error value; through the Ctx form and the context-free wrapper;
+	// index query and primary query): nothing is cached, the key stays readable, also for concurrent readers
+	"exec p3,x3 put:3:30:3", "take p3 db=2", "take p3 j=0", "del p3", "take p3 db=3 nc=1", "ctake p3 n=3", "del p3,x3",
+	"qindex x3 db=2", "qindex x3 j=1000", "del p3", "qindex x3 db=3 nc=1", "qindex x3", "take p4 db=2", "take p4 db=3", "take p4", "cmix p3+p4 n=4 chain=1 gmp=1",
 }}
 
 // several CachedConn over the same servers, replayed on every run: what one instance loads the others serve
@@ -615,16 +911,42 @@ var c06InstanceScenarios = []verifh.Section{
 		"del p1,p2,p3 i=2", "ctake p1 n=4 i=0+1", "del p1 i=0", "ctake p1 n=6 i=0+1+2 j=0", "del p1", "ctake p1 n=5 i=1+2 db=1",
 		"del p1", "ctake p1 n=4 i=3+4", "del p1", "ctake p1 n=4 i=0+4 j=500", "del p1", "ctake p1 n=6 i=1+3+5", "ctake p7 n=3 i=0+1+2",
 		"setx p4 r:4:40:4 0 j=0 i=3", "set p5 r:5:50:5 i=2 j=1000", "get p4 i=0", "get p5 i=4",
+		// readers of several keys at once, each going on to the next key; one P and many Ps; a cached key, an
+		// absent row and a database fault among them; across instances of one barrier and of several
+		"exec p2,x2 put:2:20:2 i=0", "del p1,p2,p3 i=0", "cmix p1+p2 n=6 chain=1 gmp=1 i=0", "del p1,p2 i=1", "cmix p1+p2+p3 n=8 chain=1 gmp=0 i=0+1+2 j=0",
+		"del p1,p2,p3", "cmix p2+p1 n=5 chain=0 gmp=1 i=1+2", "cmix p1+p2 n=4 chain=1 gmp=1 i=0", "del p1", "cmix p1+p3+p2 n=6 chain=1 gmp=1 i=2 j=1000",
+		"del p1,p2,p3", "cmix p1+p2 n=6 chain=1 gmp=1 db=1 i=0+1", "cmix p1+p2 n=4 chain=1 gmp=0 i=3+4", "del p1,p2", "cmix p1+p2 n=6 chain=1 gmp=1 i=0+3+5",
+		"del p1,p2,p3", "cmix p3 n=3 chain=0 gmp=1 w=1 i=0", "cmix p1 n=2 chain=1 gmp=1 i=0",
 	}},
 	{Cfg: "inst=conn/20000/3000,conn/-/-,wc0/1/1,conn/0/-1 stale=report nodes=3 type=cluster place=p1:0,x1:1,p2:2,x2:0", Ops: []string{
 		"insts", "exec p1,x1 put:1:10:1 i=1", "exec p2,x2 put:2:20:2 i=2", "qindex x1 i=0 j=500", "qindex x2 i=1 j=0", "take p1 i=2", "take p2 i=3",
 		"exec p1,x1,p2,x2 put:1:11:2 c=1/0/1 i=3", "take p1 i=0", "qindex x2 i=1", "tick 1 c=000", "take p2 i=2 j=1000", "qindex x2 i=0",
 		"del p1,p2 i=2", "ctake p1 n=6 i=0+1+3", "ctake p2 n=4 i=1+2", "take p3 i=2 j=0", "take p3 i=3",
+		"del p1,p2,p3 i=0", "cmix p1+p2+p3 n=7 chain=1 gmp=1 i=0+1+3", "del p1,p2", "cmix p2+p1 n=4 chain=1 gmp=0 i=0+2 j=0",
 	}},
 }
 
+// every rung of the cleaner's retry ladder (1 s, 5 s, 1 min, 5 min, 1 h), replayed on every run: the DEL of an
+// Exec fails, the retries fail up to rung k and the node is back for the retry of rung k+1 — the entry must be
+// gone right then (a ladder that gives up early, skips a rung or waits longer shows as `retry`).
+func c06RetryLadderScenario() verifh.Section {
+	waits := []int{1, 5, 60, 300, 3600}
+	ops := []string{"exec p1,x1 put:1:10:1"}
+	for k := range waits {
+		ops = append(ops, "take p1 j=500", fmt.Sprintf("exec p1,x1 put:1:%d:1 c=1", 11+k))
+		for i := 0; i < k; i++ {
+			ops = append(ops, fmt.Sprintf("tick %d c=1", waits[i]))
+		}
+		if waits[k] > 1 {
+			ops = append(ops, fmt.Sprintf("tick %d c=0", waits[k]-1), "take p1")
+		}
+		ops = append(ops, "tick 1 c=0", "take p1 j=0", "del p1")
+	}
+	return verifh.Section{Cfg: "exp=30000000 nf=3000 stale=report nodes=1 type=node place=-", Ops: ops}
+}
+
 func c06Gen(r *verifh.Rng) []verifh.Section {
-	secs := []verifh.Section{c06StaleScenario, c06ClusterScenario, c06NXScenario}
+	secs := []verifh.Section{c06StaleScenario, c06ClusterScenario, c06NXScenario, c06RetryLadderScenario()}
 	secs = append(secs, c06InstanceScenarios...)
 	secs = append(secs, c06OptionScenarios()...)
 	nsec := verifh.Scale(44, 400)
@@ -683,10 +1005,14 @@ func c06Gen(r *verifh.Rng) []verifh.Section {
 		// are spread over a subset (` i=a+b`)
 		inst, ni := cache.VerifC06GenInsts(r.Intn, nodes, exp, nf)
 		iv := func() string {
-			if ni == 1 {
-				return ""
+			nc := ""
+			if r.Chance(1, 4) {
+				nc = " nc=1" // through the context-free wrapper of the entry point
 			}
-			return fmt.Sprintf(" i=%d", r.Intn(ni))
+			if ni == 1 {
+				return nc
+			}
+			return fmt.Sprintf("%s i=%d", nc, r.Intn(ni))
 		}
 		ivs := func() string {
 			if ni == 1 {
@@ -704,11 +1030,20 @@ func c06Gen(r *verifh.Rng) []verifh.Section {
 		for len(ops) < nops {
 			switch x := r.Intn(100); {
 			case x < 26:
-				ops = append(ops, fmt.Sprintf("take p%d%s%s%s", pkey(), c06J(r), c06Mask(r, 3), c06DBFault(r))+iv())
+				ops = append(ops, fmt.Sprintf("take p%d%s%s%s", pkey(), c06J(r), c06Mask(r, 3), c06DBFaultP(r))+iv())
 			case x < 40:
-				ops = append(ops, fmt.Sprintf("qindex x%d%s%s%s", pkey(), c06J(r), c06Mask(r, 4), c06DBFault(r))+iv())
+				ops = append(ops, fmt.Sprintf("qindex x%d%s%s%s", pkey(), c06J(r), c06Mask(r, 4), c06DBFaultP(r))+iv())
 			case x < 43:
 				ops = append(ops, fmt.Sprintf("ctake p%d n=%d%s%s", pkey(), r.Range(2, 6), c06J(r), c06DBFault(r))+ivs())
+			case x < 47:
+				// concurrent readers of several keys, chained second reads, one P / many Ps
+				pool := r.Range(1, nk+1)
+				var ks []string
+				for k, want := r.Intn(pool), r.Range(1, 3); len(ks) < want && len(ks) < pool; k++ {
+					ks = append(ks, fmt.Sprintf("p%d", k%pool))
+				}
+				o := fmt.Sprintf("cmix %s n=%d chain=%d gmp=%d%s%s", strings.Join(ks, "+"), r.Range(2, 8), r.Intn(2), r.Intn(2), c06J(r), c06DBFault(r))
+				ops = append(ops, o+ivs())
 			case x < 62:
 				val++
 				w := fmt.Sprintf("put:%d:%d:%d", pkey(), val, pkey())
